@@ -120,6 +120,10 @@ type c08Case struct {
 	// Upto >= 0 means the model expects the parser to drop the line that starts at Upto and to report it as too large
 	Chunk, Max  int
 	Upto, ELine int
+	// Partner != nil: between any two NextBlock calls of the parser under test, OTHER parsers work in the same goroutine - a second
+	// BlockParser over Partner takes one step, and every third step Partner is parsed in memory and rendered. Sequential, interleaved use
+	// of independent parser values: the observations of the parser under test must be those of its solo run.
+	Partner []byte
 }
 
 // errId: 0 nil, 1 io.EOF, 2 the injected failure (same value), 3 anything else
@@ -199,7 +203,20 @@ func runC08(c *c08Case, in *interner) (t *c08Trace, panicMsg string) {
 			t.Evs = append(t.Evs, []int{1, r[0], r[1], r[2]})
 		}
 	}
+	var q *commonmark.BlockParser
 	for steps := 0; steps < 100000; steps++ {
+		if c.Partner != nil {
+			if q == nil {
+				q = commonmark.NewBlockParser(bytes.NewReader(c.Partner))
+			}
+			if _, qerr := q.NextBlock(); qerr != nil {
+				q = nil
+			}
+			if steps%3 == 1 {
+				pb, prefs := commonmark.Parse(c.Partner)
+				(&commonmark.HTMLRenderer{ReferenceMap: prefs}).Render(io.Discard, pb)
+			}
+		}
 		b, err := p.NextBlock()
 		flush()
 		if err != nil {
@@ -222,6 +239,32 @@ func runC08(c *c08Case, in *interner) (t *c08Trace, panicMsg string) {
 	t.FinR = in.id(dumpRefMap(refs))
 	t.After = rd.after
 	return t, ""
+}
+
+// runC08Guarded runs a case whose parser may be disturbed into never returning (Partner != nil) under a watchdog.
+func runC08Guarded(c *c08Case, in *interner) (t *c08Trace, pm string, hung bool) {
+	if c.Partner == nil {
+		t, pm = runC08(c, in)
+		return t, pm, false
+	}
+	type out struct {
+		t  *c08Trace
+		pm string
+	}
+	ch := make(chan out, 1)
+	priv := &interner{}
+	go func() { t, pm := runC08(c, priv); ch <- out{t, pm} }()
+	select {
+	case o := <-ch:
+		if o.pm == "" && c08OK(o.t) == "" {
+			// the dumps were interned privately (the goroutine might have outlived this call): re-run with the shared interner
+			t, pm = runC08(c, in)
+			return t, pm, false
+		}
+		return o.t, o.pm, false
+	case <-time.After(20 * time.Second):
+		return nil, "", true
+	}
 }
 
 // c08OK is the harness-side pre-check used only to pick replay candidates and samples; the verdict
@@ -340,9 +383,14 @@ func cmdStream(args []string) *Result {
 			if m, ok := rec["max"].(float64); ok && m > 0 {
 				c.Max, c.Chunk, c.Upto, c.ELine = int(m), int(rec["chunk"].(float64)), int(rec["upto"].(float64)), int(rec["eline"].(float64))
 			}
-			t, pm := runC08(c, &interner{})
+			if pa, ok := rec["partner"]; ok && pa != nil {
+				c.Partner = bytesOf(anyInts(pa))
+			}
+			t, pm, hung := runC08Guarded(c, &interner{})
 			res.Evaluations = 1
-			if pm != "" {
+			if hung {
+				res.addCandidate(Candidate{Sig: map[string]any{"input": ints(c.Input), "class": "hang"}, What: "NextBlock did not return within 20 s"})
+			} else if pm != "" {
 				res.addCandidate(Candidate{Sig: map[string]any{"input": ints(c.Input), "class": "panic"}, What: "panic: " + pm})
 			} else if why := c08OK(t); why != "" {
 				res.addCandidate(Candidate{Sig: map[string]any{"input": ints(c.Input)}, What: why})
@@ -350,8 +398,28 @@ func cmdStream(args []string) *Result {
 		case "c01":
 			in := bytesOf(anyInts(rec["input"]))
 			for entry := 0; entry < nC01Entries; entry++ {
-				t := runC01(in, entry)
+				var t *c01Trace
+				done := make(chan string, 1)
+				go func() {
+					defer func() {
+						if r := recover(); r != nil {
+							done <- fmt.Sprint("panic: ", r)
+						}
+					}()
+					t = runC01(in, entry)
+					done <- ""
+				}()
 				res.Evaluations++
+				select {
+				case pm := <-done:
+					if pm != "" {
+						res.addCandidate(Candidate{Sig: map[string]any{"input": ints(in), "entry": entry, "class": "panic"}, What: pm})
+						continue
+					}
+				case <-time.After(20 * time.Second):
+					res.addCandidate(Candidate{Sig: map[string]any{"input": ints(in), "entry": entry, "class": "hang"}, What: "NextBlock did not return within 20 s"})
+					continue
+				}
 				if why := c01OK(t, in); why != "" {
 					res.addCandidate(Candidate{Sig: map[string]any{"input": ints(in), "entry": entry}, What: why})
 				}
@@ -378,12 +446,27 @@ func cmdStream(args []string) *Result {
 func streamC08(res *Result, enc *shardWriter, tlcOuts []string) {
 	in := &interner{}
 	id := 0
+	hangs := 0
 	emit := func(c *c08Case) {
-		t, pm := runC08(c, in)
+		if c.Partner != nil && hangs >= 3 {
+			return // each hang leaves a spinning goroutine behind: the route is abandoned after three
+		}
+		t, pm, hung := runC08Guarded(c, in)
+		if hung {
+			hangs++
+			res.Evaluations++
+			res.addCandidate(Candidate{Sig: map[string]any{"input": ints(c.Input), "class": "hang"},
+				Record: map[string]any{"kind": "c08", "input": ints(c.Input), "cut": c.Cut, "fail": c.Fail, "sched": c.Sched, "partner": ints(c.Partner)},
+				What: fmt.Sprintf("NextBlock did not return within 20 s on %q while a second parser worked on %q between the calls", c.Input, c.Partner)})
+			return
+		}
 		res.Evaluations++
 		rec := map[string]any{"kind": "c08", "input": ints(c.Input), "cut": c.Cut, "fail": c.Fail, "sched": c.Sched}
 		if c.Max > 0 {
 			rec["max"], rec["chunk"], rec["upto"], rec["eline"] = c.Max, c.Chunk, c.Upto, c.ELine
+		}
+		if c.Partner != nil {
+			rec["partner"] = ints(c.Partner)
 		}
 		if pm != "" {
 			res.addCandidate(Candidate{Sig: map[string]any{"input": ints(c.Input), "class": "panic"}, Record: rec, What: fmt.Sprintf("panic while streaming %q: %s", c.Input, pm)})
@@ -488,6 +571,7 @@ func streamC08(res *Result, enc *shardWriter, tlcOuts []string) {
 	phase("c08: compositions done", res)
 	// (B2) seeded random schedules on the mixed sources
 	src := newSource(8)
+	var prevDoc []byte
 	nmixed := 3000
 	if thorough {
 		nmixed = 60000
@@ -517,8 +601,32 @@ func streamC08(res *Result, enc *shardWriter, tlcOuts []string) {
 			r -= k
 		}
 		emit(&c08Case{Input: doc, Cut: cut, Fail: fail, Sched: schedFromChunks(ch, src.rng.Intn(4))})
+		// (B5) the same execution with other parser values at work between its steps (interleaved, one goroutine)
+		if prevDoc != nil && len(doc) <= 400 && len(prevDoc) <= 400 {
+			emit(&c08Case{Input: doc, Cut: cut, Fail: fail, Sched: schedFromChunks(ch, 1), Partner: prevDoc})
+		}
+		prevDoc = append([]byte(nil), doc...)
 	})
-	phase("c08: mixed done", res)
+	// ... and on every pair of short multi-block documents, where leftover closed blocks wait between calls
+	{
+		pieces := []string{"a\n# b\n", "a\n***\n# b\nc\n", "> a\n- b\n\n    c\n", "- a\n- b\n\n1. c\n# d\n", "```\nx\n```\n# e\nf\n===\n", "[a]: /u\n[a]\n# g\n", "<div>\n\n# h\n*i*\n"}
+		for _, x := range pieces {
+			for _, y := range pieces {
+				for _, size := range []int{1, 3, 1000} {
+					var ch []int
+					for r := len(x); r > 0; r -= size {
+						if r < size {
+							ch = append(ch, r)
+						} else {
+							ch = append(ch, size)
+						}
+					}
+					emit(&c08Case{Input: []byte(x), Cut: len(x), Sched: schedFromChunks(ch, 1), Partner: []byte(y)})
+				}
+			}
+		}
+	}
+	phase("c08: mixed + interleaved done", res)
 	// (B4) drip schedules on long lines: a reader that never fails and always makes progress, but needs hundreds of reads (half of
 	// them empty) to deliver one line
 	stretched(func(doc []byte) {
@@ -553,11 +661,11 @@ func streamC08(res *Result, enc *shardWriter, tlcOuts []string) {
 
 // ---------------------------------------------------------------- C01
 
-const nC01Entries = 6
+const nC01Entries = 7
 
 type c01Trace struct {
 	ID    int     `json:"id"`
-	Entry int     `json:"entry"` // 0 = Parse, 1 = NewBlockParser over a one-shot reader, 2 = one line per Read, 3 = three bytes per Read, 4 = one line per Read and the last one together with io.EOF, 5 = drip reader (empty read before every two bytes, last data with io.EOF)
+	Entry int     `json:"entry"` // 0 = Parse, 1 = NewBlockParser over a one-shot reader, 2 = one line per Read, 3 = three bytes per Read, 4 = one line per Read and the last one together with io.EOF, 5 = drip reader (empty read before every two bytes, last data with io.EOF), 6 = three bytes per Read while a second BlockParser and an in-memory Parse of another document work between the NextBlock calls (same goroutine)
 	In    []int   `json:"in"`    // input bytes (only when short; see Long)
 	Long  int     `json:"long"`  // 1: input too long to ship byte-wise; derived scalars are logged instead
 	N     int     `json:"n"`     // input length
@@ -597,6 +705,8 @@ func runC01(input []byte, entry int) *c01Trace {
 		var err error
 		if entry == 5 {
 			blocks, refs, err = streamParseFrom(&dripReader{data: buf})
+		} else if entry == 6 {
+			blocks, refs, err = streamParseInterleaved(&lineReader{data: buf, fixed: 3})
 		} else {
 			blocks, refs, err = streamParseFrom(&lineReader{data: buf, fixed: map[int]int{2: 0, 3: 3, 4: 0}[entry], withEOF: entry == 4})
 		}
@@ -722,6 +832,38 @@ func (r *dripReader) Read(p []byte) (int, error) {
 	return n, nil
 }
 
+// streamParseInterleaved is streamParseFrom with other parser values at work between the calls: a second BlockParser takes one step
+// before every NextBlock, and an in-memory Parse runs before every other one. Independent parser values, one goroutine.
+var interleavePartner = []byte("a\n# b\nc\n***\n- d\n- e\n\n> f\n\n    g\n```\nh\n```\n[i]: /j\n<div>\n\nk\n===\n")
+
+func streamParseInterleaved(rd io.Reader) ([]*commonmark.RootBlock, commonmark.ReferenceMap, error) {
+	p := commonmark.NewBlockParser(rd)
+	var q *commonmark.BlockParser
+	var blocks []*commonmark.RootBlock
+	refs := make(commonmark.ReferenceMap)
+	for step := 0; ; step++ {
+		if q == nil {
+			q = commonmark.NewBlockParser(bytes.NewReader(interleavePartner))
+		}
+		if _, qerr := q.NextBlock(); qerr != nil {
+			q = nil
+		}
+		if step%2 == 1 {
+			commonmark.Parse(interleavePartner)
+		}
+		b, err := p.NextBlock()
+		if err != nil {
+			ip := &commonmark.InlineParser{ReferenceMatcher: refs}
+			for _, rb := range blocks {
+				ip.Rewrite(rb)
+			}
+			return blocks, refs, err
+		}
+		blocks = append(blocks, b)
+		refs.Extract(b.Source, b.AsNode())
+	}
+}
+
 func streamParseFrom(rd io.Reader) ([]*commonmark.RootBlock, commonmark.ReferenceMap, error) {
 	p := commonmark.NewBlockParser(rd)
 	var blocks []*commonmark.RootBlock
@@ -805,6 +947,7 @@ func c01OK(t *c01Trace, input []byte) string {
 
 func streamC01(res *Result, enc *shardWriter) {
 	id := 0
+	c01Hangs := 0
 	enumerating := false // during the exhaustive enumerations the drip reader is used on the shortest strings only
 	emit := func(doc []byte) {
 		d := append([]byte(nil), doc...)
@@ -812,16 +955,36 @@ func streamC01(res *Result, enc *shardWriter) {
 			if entry == 5 && enumerating && len(d) > 4 {
 				continue
 			}
+			if entry == 6 && (c01Hangs >= 3 || (enumerating && len(d) > 4)) {
+				continue
+			}
 			var t *c01Trace
 			pm := ""
-			func() {
+			run := func() {
 				defer func() {
 					if r := recover(); r != nil {
 						pm = fmt.Sprint(r)
 					}
 				}()
 				t = runC01(d, entry)
-			}()
+			}
+			if entry == 6 {
+				// other parser values work between the calls: a parser they disturb may never return (watchdog; each hang leaves a
+				// spinning goroutine behind, so the entry is abandoned after three)
+				done := make(chan struct{})
+				go func() { run(); close(done) }()
+				select {
+				case <-done:
+				case <-time.After(20 * time.Second):
+					c01Hangs++
+					res.Evaluations++
+					res.addCandidate(Candidate{Sig: map[string]any{"input": ints(d), "class": "hang"}, Record: map[string]any{"kind": "c01", "input": ints(d)},
+						What: fmt.Sprintf("NextBlock did not return within 20 s on %q while other parser values worked between the calls", d)})
+					continue
+				}
+			} else {
+				run()
+			}
 			res.Evaluations++
 			rec := map[string]any{"kind": "c01", "input": ints(d)}
 			if pm != "" {
